@@ -1,6 +1,6 @@
 (* Properties_C14.v — the theorems of property C14 (line routine; the rectangle routine has no algorithm model and is
    validated differentially against the specification [rect_barcode] of C14_Model.v, see design/C14.md). *)
-From Coq Require Import ZArith List Bool.
+From Coq Require Import ZArith List Bool Lia.
 Require Import Reduce ReduceExec C14_Model C14_Proofs.
 Import ListNotations.
 Local Open Scope Z_scope.
@@ -36,6 +36,11 @@ Example C14_invariant_instance :
   line Z Z.ltb [3; 1; 4; 1; 5; 2] = Some ([(1, 4); (2, 5)], Some 1).
 Proof. split; vm_compute; reflexivity. Qed.
 
+(* the hypothesis of the invariance theorems is satisfiable: x -> 3x - 4 with P := fun _ => True *)
+Example C14_monotone_hypothesis_instance :
+  forall x y : Z, True -> True -> Z.ltb (3 * x - 4) (3 * y - 4) = Z.ltb x y.
+Proof. intros x y _ _. destruct (Z.ltb_spec (3 * x - 4) (3 * y - 4)), (Z.ltb_spec x y); try reflexivity; lia. Qed.
+
 (* The machine never indexes its vector out of bounds, never trips GUDHI_CHECK(!data.empty()) and ends within its fuel
    (the model returns None in each of these cases), for every input. *)
 Theorem C14_line_never_fails : forall l : list Z, line_Z l <> None.
@@ -56,6 +61,12 @@ Theorem C14_line_data_alternates :
     end.
 Proof. exact step_shape. Qed.
 Print Assumptions C14_line_data_alternates.
+
+(* the hypotheses are satisfiable in the interesting states: the sequences of the source comment, odd and even length *)
+Example C14_shape_instance :
+  shape L132 [5; 7; 3; 8; 2; 9; 1] 0 /\ shape L312 [6; 5; 7; 3; 8; 2; 9; 1] 0 /\
+  shape L312down [6; 5; 7; 3; 8; 2; 9; 1] 4 /\ shape Lup [3; 8; 2; 9; 1] 7.
+Proof. cbn. repeat split; lia. Qed.
 
 (* every emitted pair has birth < death: the routine never outputs an interval of zero length *)
 Theorem C14_line_outputs_are_strict :
